@@ -69,9 +69,40 @@ def explore(ctx):
                 res["failures"].append({"class": None, "witness": True,
                                         "text": f"modified presentation is ACCEPTED: {t['path']} ({t['kind']}) suite {s['suite']}", "case": case})
             # panics while decoding corrupted bytes are C20's subject (they are not acceptance)
+    # (c) every structural leaf of the presentation's value tree that is not a scalar / point: flags, integers,
+    #     texts, lengths of lists, keys (the mutation harness of C20, read for acceptance instead of panics)
+    if not ctx.get("replay"):
+        import c20
+        jobs = []
+        for suite in ("bbs", "ps"):
+            for wname, w in (("full", c20.world(rng, suite, heavy=True)), ("small", c20.small_world(rng, suite))):
+                base = dict(w, op="f_total", target="verify", obj="pres")
+                d = C.run_exec([dict(base, sel={"describe": True})])[0]
+                sel = [i for i, t in enumerate(d.get("tags", [])) if t in c20.FULL_TAGS or (tier == "thorough" and t in ("set-bytes", "bytes-set")) or rng.randrange(12) == 0]
+                for ch in c20.chunks(sel, 120):
+                    jobs.append((suite, wname, dict(base, sel={"list": ch})))
+        import concurrent.futures as cf
+        with cf.ThreadPoolExecutor(max_workers=16) as ex:
+            outs = list(ex.map(lambda j: C.run_exec([j[2]], timeout=7200)[0], jobs))
+        hist["structural_mutations"] = {}
+        for (suite, wname, op), r in zip(jobs, outs):
+            if r.get("base") != "ok":
+                res["failures"].append({"class": None, "witness": False, "text": f"honest baseline not accepted after a value-tree round trip ({suite}, {wname})", "case": op})
+                continue
+            for x in r.get("results", []):
+                if x.get("decode") != "ok":
+                    continue
+                n_leaf += 1
+                tag = x["desc"].split(":")[1]
+                key = f"{tag}:{'same-object' if x.get('same') else x.get('out')}"
+                hist["structural_mutations"][key] = hist["structural_mutations"].get(key, 0) + 1
+                distinct.add(C.case_hash([suite, wname, x["desc"]]))
+                if x.get("out") == "ok" and not x.get("same"):
+                    res["failures"].append({"class": None, "witness": True,
+                                            "text": f"modified presentation is ACCEPTED: {x['desc']} ({suite})", "case": dict(op, sel={"list": [x["i"]]})})
     if len(res["samples"]) < 12:
         res["samples"].append({"leaf_mutations_of_first_case": [t for t in (impl[0].get("tamper") or [])[:6]]} if impl and isinstance(impl[0].get("tamper"), list) else {})
     res["evaluations"] += n_leaf
     res["distinct_nontrivial"] += len(distinct)
-    res["rule"] += "; plus, on Presentation::create output over every statement kind: every scalar / point leaf x {random, zero / identity, negation, +1 / +G, sibling leaf}, each proof removed, two proofs swapped, challenge +1, each disclosed claim's value and label, random single-byte and single-bit changes of the BARE encoding (a change the decoder normalises back to the same object is not counted)"
+    res["rule"] += "; plus, on Presentation::create output over every statement kind: every scalar / point leaf x {random, zero / identity, negation, +1 / +G, sibling leaf}, each proof removed, two proofs swapped, challenge +1, each disclosed claim's value and label, random single-byte and single-bit changes of the BARE encoding (a change the decoder normalises back to the same object is not counted); and every other leaf of the presentation's value tree (flags, integers, texts, list lengths, map keys) changed once"
     return res
